@@ -932,7 +932,10 @@ double myatof(const char* s)
 		if (c == 'E' || c == 'e') break;
 		y1 = 10 * y1 + (c - '0');
 	}
-	y = double(y1) * pow(10.0, exp);
+	if (exp < -290) // pow(10, exp) would be subnormal and lose digits: scale in two steps (1e22 is exact)
+		y = double(y1) * pow(10.0, exp + 22) / 1e22;
+	else
+		y = double(y1) * pow(10.0, exp);
 	return y * m;
 }
 
